@@ -96,7 +96,10 @@ int main(int argc, char **argv) {
                 for (int cm = 0; cm < 4; cm++) for (int nl = 0; nl < 2; nl++) {
                     std::string text; Expect ex; ex.n = n;
                     if (cm == 1) text += comments[0];
-                    text += "p edge " + std::to_string(n) + " " + std::to_string(L) + "\n";
+                    // the declared edge count is informative only ("one edge per e/a line"): exact, stale-low, stale-high and 0 are all used,
+                    // with both customary problem words (seed S63: a reader that stops after the declared number of edge lines)
+                    { int sel = (int) ((code + cm + 2 * nl) % 4); int dm = sel == 0 ? L : sel == 1 ? std::max(L - 1, 0) : sel == 2 ? L + 2 : (L >= 2 ? 1 : 0);
+                      text += std::string(((code + nl) % 2) ? "p sp " : "p edge ") + std::to_string(n) + " " + std::to_string(dm) + "\n"; }
                     if (cm == 2) text += comments[1];
                     for (size_t i = 0; i < seq.size(); i++) {
                         auto &el = seq[i];
@@ -148,7 +151,7 @@ int main(int argc, char **argv) {
     }
     vp_dig(g_digest);       // printed by Stats::print as VP-DIGEST
     st.print("e3_dimacs", false,
-            "grammar enumerator: n<=4 declared vertices, <=3 (thorough 4) edge lines over (endpoints incl. the undeclared ids n+1, 0 and -1) x {e,a} x weight forms {omitted,5,2.5,-3,0,17,0.125}, exhaustive for <=1 line and strided beyond, x 4 comment placements x {final newline, none}; predicates on every multigraph (loops allowed) with <=4 vertices and <=4 (5) edges; distinct by text",
+            "grammar enumerator: n<=4 declared vertices, <=3 (thorough 4) edge lines over (endpoints incl. the undeclared ids n+1, 0 and -1) x {e,a} x weight forms {omitted,5,2.5,-3,0,17,0.125}, exhaustive for <=1 line and strided beyond, x 4 comment placements x {final newline, none} x declared edge count {exact, one less, two more, 1/0} x {p edge, p sp}; predicates on every multigraph (loops allowed) with <=4 vertices and <=4 (5) edges; distinct by text",
             std::string("maxlines=") + std::to_string(maxlines) + " maxe=" + std::to_string(maxe));
     return 0;
 }
